@@ -125,7 +125,7 @@ class C06(Prop):
             items.append("check_lingering %d %d %d %d %d" % (c["size"], c["gate"], c["script"][0]["plen"], n2, r.get("lingered_bytes", 0)))
             rows.append(("lingering", r))
         header = ["From Coq Require Import ZArith List Bool.", "From IP Require Import Agent.ReplayBuffer Agent.ReplayCheck Lib.Util.", "Import ListNotations."]
-        bad, dt = C.eval_code_items(ctx.work, "cases_c06", header, items, shard=400)
+        bad, dt = C.eval_code_items(ctx.work, "cases_c06", header, items, shard=1200)
         if bad is None:
             return [("cases_c06.v (model evaluation)", "coqc failed: " + dt[-600:], {})], 0, {}
         mism = []
